@@ -158,6 +158,42 @@ def primitives(ctx, cfg, fs, rule):
     assigned = any(st['k'] == 'assign' and place_fields(st['lhs']) == ['scope'] and all(r.kind == 'param' and r.what == 'scope' for r in provenance(b, st['rv']['op'], i, k)) for i, k, st in b.stmts() if st['rv']['k'] == 'use')
     ctx.ob(rule, 'set_scope:assigns-parameter', assigned, 'set_scope stores its parameter as the new scope: %s' % assigned, where=b.where(), cfg=cfg)
 
+ITEMSTATE_INSPECTORS = {
+    'args::ItemState::present': 'the presence classification',
+    'args::ItemState::parsed': 'the consumed classification',
+    'args::inner::State::conflict': 'reads the index stored in Conflict(_) for the error message',
+    '<args::ItemState as std::cmp::PartialEq>::eq': 'derived',
+    '<args::ItemState as std::fmt::Debug>::fmt': 'derived',
+    '<args::ItemState as std::clone::Clone>::clone': 'derived',
+}
+
+def itemstate(ctx, cfg, fs, rule):
+    """the three-valued item state is classified in one place: Unparsed and Conflict are `present`, Parsed is not"""
+    for fn, want in (('present', {'Unparsed': True, 'Conflict': True, 'Parsed': False}), ('parsed', {'Unparsed': False, 'Conflict': False, 'Parsed': True})):
+        b = ctx.look(fs.body('args::ItemState::%s' % fn))
+        enum, t = enum_const_table(b)
+        ctx.ob(rule, 'ItemState::%s:table' % fn, t == want, 'ItemState::%s = %s (expected %s: an item claimed only by the losing alternative stays available)' % (fn, t, want), where=b.where(), cfg=cfg)
+    for b in fs.bodies.values():
+        hits = []
+        for sw in switches(b):
+            if sw.kind == 'enum' and sw.enum == 'args::ItemState':
+                hits.append('match on ItemState')
+        for c in b.calls():
+            if c.is_(r'^<args::ItemState as std::cmp::PartialEq>::eq$', r'ItemState as std::cmp::PartialEq'):
+                hits.append('ItemState == ..')
+        if hits:
+            o = outer(b.path)
+            ctx.ob(rule, 'ItemState:inspected-by:%s' % short(o), o in ITEMSTATE_INSPECTORS,
+                   '%s inspects ItemState directly (%s): %s' % (short(b.path), sorted(set(hits)), ITEMSTATE_INSPECTORS.get(o, 'NOT a listed classifier - presence must be decided by ItemState::present()/parsed() so that conflict-marked items are treated uniformly')),
+                   where=b.where(), cfg=cfg)
+    # every presence query of State goes through ItemState::present
+    for fn in ('args::inner::State::present', 'args::inner::State::get', 'args::inner::State::remove', 'args::inner::State::adjacently_available_from',
+               'args::inner::State::adjacent_scope', 'args::inner::State::set_scope'):
+        b = ctx.look(fs.body(fn))
+        uses = [c for x in fs.family(b) for c in x.calls() if c.is_(r'^args::ItemState::present$')]
+        refs = [fn_ for x in fs.family(b) for (_, fn_, _) in fn_refs(x) if fn_ == 'args::ItemState::present']
+        ctx.ob(rule, 'ItemState:present-used-by:%s' % short(fn), bool(uses) or bool(refs), '%s decides presence with ItemState::present(): %s' % (short(fn), bool(uses) or bool(refs)), where=b.where(), cfg=cfg)
+
 ITER_ALLOWED = {'find': 'whole-scope', 'find_map': 'whole-scope', 'next': 'front-only'}
 CONSUMERS = {
     'take_flag': ('args::<impl args::inner::State>::take_flag', 'whole-scope'),
